@@ -7,9 +7,9 @@ def run(tier, seed):
     res = PropertyResult('C08', 'other', 'see coverage.explanation parts')
     targets = []
     try:
-        from contracts import heap_c, alloc_c, graph_c
+        from contracts import heap_c, alloc_c, graph_c, simops_c
         from pyvc.verify import verify
-        res.report = verify(heap_c.targets() + alloc_c.targets() + graph_c.targets_stems(), timeout_s=30 if tier == 'quick' else 120)
+        res.report = verify(heap_c.targets() + alloc_c.targets() + graph_c.targets_stems() + simops_c.targets_layout(), timeout_s=30 if tier == 'quick' else 120)
     except ImportError:
         res.report = None
     res.explanation = ('Tier P (unbounded, all alloc/free histories): sim.Heap.alloc and Heap.free are executed symbolically from their current source text on a '
